@@ -6,9 +6,9 @@ open Interceptor.Driver Interceptor.Lifecycle
 /-- parameter vectors of the sixteen harness kinds (cross-checked against the regenerated
 LifecycleFacts in Facts/C11.lean). -/
 def paramsOf : String → Option Params
-  | "rr" => some { hasLoop := true, emits := .remoteBound }
+  | "rr" | "chainrr" => some { hasLoop := true, emits := .remoteBound }
   | "sr" => some { hasLoop := true, emits := .localBound }
-  | "pli" => some { hasLoop := true, emits := .remoteBound, immediateOnBind := true }
+  | "pli" | "chainpli" => some { hasLoop := true, emits := .remoteBound, immediateOnBind := true }
   | "nackgen" => some { hasLoop := true, emits := .remoteGap }
   | "twcc" => some { hasLoop := true, readHandoff := true }
   | "rfc8888" => some { hasLoop := true, readHandoff := true }
@@ -57,11 +57,29 @@ def stepL (d : DSt) (ts : List String) : DSt × List String :=
     | "ur" => run unbindRemote
     | "w" => run write
     | "r" => run read
+    | "gateclose2" =>
+      match getNat fs "ms" with
+      | some ms =>
+        -- the tick leaves the loop inside the slow RTCP writer: both Close calls wait for it
+        let stuck := ticksIn s ms > 0 && !(tickSet s).isEmpty
+        let s1 := advance s ms
+        let (s2, _) := close s1
+        ({ st := some s2, closedByOp := true }, [s!"stuck={stuck} early1=false early2=false"])
+      | none => (d, ["bad-op"])
+    | "nackgateunbind" =>
+      let (s1, o1) := rtcpRead s
+      if o1 == .unbound then (d, ["unbound"]) else
+      let x := (getNat fs "ssrc").getD 0
+      -- the responder's retransmission in flight is the only packet still written after Unbind
+      let n := if s.p.resendsOnNack && s.loc.contains x && s.written.contains x && !s.closed then 1 else 0
+      let (s2, _) := unbindLocal s1 x
+      ({ d with st := some s2 }, [s!"inflight {n} after-unbind {n}"])
     | "nackgateclose" =>
       -- a retransmission is inside a gated downstream Write while Close runs: Close waits for it
       let (s1, o1) := rtcpRead s
       if o1 == .unbound then (d, ["unbound"]) else
-      let inflight := if s.p.resendsOnNack && s.writers.contains ((getNat fs "ssrc").getD 0) then 1 else 0
+      let x := (getNat fs "ssrc").getD 0
+      let inflight := if s.p.resendsOnNack && s.loc.contains x && s.written.contains x && !s.closed then 1 else 0
       let (s2, _) := close s1
       ({ st := some s2, closedByOp := true }, [s!"inflight {inflight} close-waited true"])
     | "nackclose" =>
